@@ -1,0 +1,16 @@
+//go:build verif
+
+package resolver
+
+// Contracts for gocv (comment-only; see /verif/DESIGN.md).  No executable code.
+
+// ---- C04: the nesting depth of a resolution is restored on EVERY exit, failed ones included: what one lookup leaves
+// behind cannot make a later lookup fail (the answer does not depend on the lookups before it) ----
+//@ func (*ObjectResolver) resolve results (res, err)
+//@   property C04
+//@   flags nosafety
+//@   ensures depth_is_restored_on_every_exit: r.currentDepth == old(r.currentDepth)
+//@   loop 0:
+//@     invariant r.currentDepth == old(r.currentDepth)
+//@   loop 1:
+//@     invariant r.currentDepth == old(r.currentDepth)
